@@ -10,7 +10,11 @@
 EXTENDS Integers, Sequences, FiniteSets
 
 NoState == <<>>
-LSInit == [ents |-> <<>>, max |-> 0, st |-> NoState, ss |-> 0, rm |-> 0]
+\* soft: hard states that were acknowledged before the current one by updates that only moved the commit
+\* index since the last update that had to be durable (entries, snapshot, term or vote). A store may write
+\* such an update without syncing it (Tan does): after a power loss the recovered hard state is the current
+\* one or one of these - always one that was actually written, with the current term and vote.
+LSInit == [ents |-> <<>>, max |-> 0, st |-> NoState, ss |-> 0, rm |-> 0, soft |-> {}]
 
 FunPut(f, k, v) == [x \in DOMAIN f \cup {k} |-> IF x = k THEN v ELSE f[x]]
 
@@ -21,8 +25,12 @@ PutAll(f, es, i) == IF i > Len(es) THEN f
 
 \* CODE: db.saveRaftState: state, then a snapshot record newer than the recorded one (the log
 \* then logically ends at it), then the entries (the log then logically ends at the last one)
+CommitOnly(s, u) ==
+  u.hass /\ Len(u.ents) = 0 /\ u.ss = 0 /\ s.st # NoState /\ u.st[1] = s.st[1] /\ u.st[2] = s.st[2]
+
 SaveUpdate(s, u) ==
-  LET s1 == IF u.hass THEN [s EXCEPT !.st = u.st] ELSE s
+  LET s0 == IF CommitOnly(s, u) THEN [s EXCEPT !.soft = @ \cup {s.st}] ELSE [s EXCEPT !.soft = {}]
+      s1 == IF u.hass THEN [s0 EXCEPT !.st = u.st] ELSE s0
       \* a restored snapshot: the log restarts at its index; what was stored at or below it
       \* is never asked for again (the log reader answers ErrCompacted there)
       s2 == IF u.ss > s1.ss
